@@ -7,7 +7,9 @@ FUNCTIONS = [('typing', 'electrical_signal.__call__'), ('typing', 'electrical_si
              ('typing', 'electrical_signal.dt'), ('typing', 'electrical_signal.sps'), ('typing', 'global_variables.__call__')]
 BOUNDS = {'lengths': 'N in {1,2,3,4,5,6,8,10,12} (quick: {1,2,3,4,5,8}); exact twiddle factors in Q(sqrt2, sqrt3, sqrt5, sin36, sin72)',
           'values': 'every complex sample of signal and noise symbolic; one and two polarisations; gv configured through the real gv(sps=.., R=..) / '
-                    'gv(fs=.., R=..) with symbolic R (fs = R*sps, sps in 1..4)'}
+                    'gv(fs=.., R=..) with symbolic R (fs = R*sps, sps in 1..4)',
+          'axis with a gv grid in force': 'w() / t() / power() of signals of length 3..15 (thorough ..25) while gv(sps, R, N) holds its own grid of '
+                                          'N*sps points, equal to the signal length (odd and even) or not'}
 OUTSIDE = ['other lengths (7, 9, 11, ... need twiddle factors outside the exact field)', 'floating-point rounding of the FFT']
 ASSUMPTIONS = ['numpy.fft.fft/ifft are the DFT pair with 1/N on the inverse; fftshift/ifftshift are the rotations by N//2 and -(N//2) '
                '(the model delegates the shifts to numpy itself and is validated against numpy.fft on every run)']
@@ -53,7 +55,9 @@ def _obj(env, cls, n, pol, noise):
 def _setup(env, cfg):
     T = env.lib.typing
     Rr = env.real('R', 1e6, 1e11)
-    if cfg.get('via', 'sps') == 'sps':
+    if cfg.get('N'):
+        gv = T.gv(sps=cfg['sps'], R=Rr, N=cfg['N'])       # a slot count in force: gv carries its own t / w grid of N*sps points
+    elif cfg.get('via', 'sps') == 'sps':
         gv = T.gv(sps=cfg['sps'], R=Rr)
     else:
         gv = T.gv(fs=Rr * cfg['sps'], R=Rr)
@@ -162,4 +166,9 @@ def configs(tier):
                 out.append((f'transform-{tag}', scen_transform, base, {}))
                 out.append((f'shift-{tag}', scen_shift, base, {}))
                 out.append((f'axis-power-{tag}', scen_axis_power, base, {}))
+    # the signal's own axis while gv holds a grid of the same (or another) length: (len, sps, N)
+    for n, sps, N in ((3, 3, 1), (9, 3, 3), (4, 2, 2), (6, 3, 2), (5, 2, 2), (15, 5, 3)) if q else \
+            ((3, 3, 1), (9, 3, 3), (4, 2, 2), (6, 3, 2), (5, 2, 2), (15, 5, 3), (21, 3, 7), (25, 5, 5), (8, 4, 2), (7, 7, 1), (7, 2, 3)):
+        for cls, pol in (('es', 1), ('os', 2)):
+            out.append((f'axis-power-{cls}{pol}-gvN{N}-sps{sps}-n{n}', scen_axis_power, dict(n=n, pol=pol, noise=False, cls=cls, sps=sps, N=N), {}))
     return out
